@@ -5,6 +5,7 @@ using namespace model;
 static void gen_M(const GenCtx &ctx, Case &c, int viewpct, int mcap, int ncap) {
   int capv = g::cap(ctx);
   int m = g::dim(std::min(capv, mcap)), n = g::dim(std::min(std::max(capv, 130), ncap));
+  g::extreme_shape(ctx, m, n);
   c.set("m", m).set("n", n);
   c.sets("M.pat", g::wpick<std::string>({{8, "dense"}, {1, "sp3"}, {1, "stripes"}, {1, "ones"}}));
   c.setu("M.seed", g::seed());
